@@ -254,8 +254,14 @@ pub fn all() -> Vec<Prop> {
         Prop {
             id: "C10",
             level: "exploration",
-            rule: "message level (E1): one evaluation = one simulated cluster execution in which Byzantine validators send well-signed consensus messages including absurd field values; a panic anywhere in code under test is a violation; non-trivial = at least one Byzantine message was delivered and at least one block committed; distinct = distinct event-log fingerprint",
-            batches: |t| bft_batches(&[("faultfree", 16), ("byzheavy", 160), ("stops", 200)], &[("faultfree", 100), ("byzheavy", 4000), ("stops", 3000)], t),
+            rule: "byte level (E2): a scripted raw peer against the real noise handshake / multiplexer / rpc server over a SimPipe (optionally through a real noise session): garbage handshakes, mux header values (all 2^16 in the thorough tier, one connection each), DATA length fields 0/1/max, frames and connections cut at arbitrary offsets, rpc length prefixes 0/1/max/max+1/2^32-1, rpc payloads decoding into requests with extreme timestamps and numbers, random protobuf; any panic is a violation. Message level (E1): one evaluation = one simulated cluster execution in which Byzantine validators send well-signed consensus messages including absurd field values; a panic anywhere in code under test is a violation; non-trivial = at least one Byzantine message was delivered and at least one block committed; distinct = distinct event-log fingerprint",
+            batches: |t| {
+                let mut b = bft_batches(&[("faultfree", 16), ("byzheavy", 160), ("stops", 200)], &[("faultfree", 100), ("byzheavy", 4000), ("stops", 3000)], t);
+                b.push(Batch { engine: "pipe", mode: "bytes", runs: if t == "thorough" { 200_000 } else { 6000 } });
+                // All 2^16 mux header values in the thorough tier (run i sends header value i).
+                b.push(Batch { engine: "pipe", mode: "mux-header", runs: if t == "thorough" { 65536 } else { 4096 } });
+                b
+            },
             expected_probes: || vec![],
             components: bft_components,
             assumptions: bft_assumptions,
